@@ -366,6 +366,8 @@ class Evaluator:
                     return lambda *a_, _m=m, _o=base, **k_: self.invoke(_m, [_o] + list(a_), k_)      # bound method value
             if isinstance(base, tuple) and e.attr in getattr(base, "_fields", ()):
                 return getattr(base, e.attr)          # NamedTuple built by namedtuple_of()
+            if base in (str, int, float, bytes, tuple, frozenset) and not e.attr.startswith("_") and callable(getattr(base, e.attr, None)):
+                return getattr(base, e.attr)          # `str.upper` as a function value (map(str.upper, ...))
             raise Unsupported(f"attribute {e.attr} on {base!r}")
         if isinstance(e, (ast.Tuple, ast.List)) and any(isinstance(x, ast.Starred) for x in e.elts):
             out = []
@@ -379,6 +381,8 @@ class Evaluator:
             return tuple(self.expr(x, env) for x in e.elts)
         if isinstance(e, ast.List):
             return [self.expr(x, env) for x in e.elts]
+        if isinstance(e, ast.Set):
+            return set(self.expr(x, env) for x in e.elts)
         if isinstance(e, ast.Dict):
             out_d = {}
             for k, v in zip(e.keys, e.values):
